@@ -30,9 +30,23 @@ def stepF : Nat → Pat → StepRes
     let r := clsStep c (stepF fuel) kids st
     { out := r.out, p := .node c r.kids r.st }
 
+mutual
 /-- `Pattern.reset()`: reset every pattern-valued attribute, recursively, then the own state. -/
 def reset : Pat → Pat
-  | .node c kids st => .node c (kids.map reset) (clsReset c st)
+  | .node c kids st => .node c (resetList kids) (clsReset c st)
+def resetList : List Pat → List Pat
+  | [] => []
+  | k :: ks => reset k :: resetList ks
+end
+
+theorem resetList_eq_map (ks : List Pat) : resetList ks = ks.map reset := by
+  induction ks with
+  | nil => rfl
+  | cons k ks ih => simp [resetList, ih]
+
+theorem reset_node (c : Cls) (kids : List Pat) (st : St) :
+    reset (.node c kids st) = .node c (kids.map reset) (clsReset c st) := by
+  simp [reset, resetList_eq_map]
 
 /-- The first `n` outcomes of repeated `next()`. -/
 def outs (fuel : Nat) : Nat → Pat → List Out
